@@ -362,3 +362,39 @@ def verify_collect(subject_kind):
 
 
 SCENARIOS += [verify_collect('message'), verify_collect('uid'), verify_collect('key')]
+
+
+def sv_and(n, m):
+    """SignatureVerification.__and__ (how a subkey's result is merged in): every entry of both sides is kept, once, in order"""
+    label = 'C17/SignatureVerification.__and__[%d+%d entries]' % (n, m)
+
+    def gen(repo):
+        r = scn.Run(repo, SV, '__and__', label)
+        ex, st = r.ex, r.st
+        mine = [E.VObj('pgpy.types.sigsubj', 'mine%d' % i) for i in range(n)]
+        theirs = [E.VObj('pgpy.types.sigsubj', 'theirs%d' % i) for i in range(m)]
+        r.set('self', '_subjects', ex.new_list(st, mine))
+        r.set('other', '_subjects', ex.new_list(st, theirs))
+        me, other = E.VObj(SV, 'self'), E.VObj(SV, 'other')
+        for pi, (s, v) in enumerate(r.call(me, [other])):
+            if isinstance(v, E.Raise):
+                r.oblige(s, 'safety(%s)/p%d' % (v.exc.split(':')[0], pi), z3.BoolVal(False), v.where)
+                continue
+            lst = s.heap.get(('self', '_subjects'))
+            got = [x.ref for x in ex.items(lst, s)] if isinstance(lst, E.VList) else None
+            r.oblige(s, 'returns-the-merged-result/p%d' % pi, z3.BoolVal(isinstance(v, E.VObj) and v.ref == 'self'))
+            r.oblige(s, 'every-entry-of-both-sides-once-in-order(so-a-bad-entry-of-either-side-stays-bad)/p%d' % pi,
+                     z3.BoolVal(got == [x.ref for x in mine + theirs]))
+            olst = s.heap.get(('other', '_subjects'))
+            r.oblige(s, 'the-other-result-is-left-as-it-was/p%d' % pi, z3.BoolVal(isinstance(olst, E.VList) and [x.ref for x in ex.items(olst, s)] == [x.ref for x in theirs]))
+        # anything that is not a verification result is refused
+        r2 = scn.Run(repo, SV, '__and__', label + '[foreign operand]')
+        r2.set('self', '_subjects', r2.ex.new_list(r2.st, []))
+        for pi, (s, v) in enumerate(r2.call(E.VObj(SV, 'self'), [E.VBool(True)])):
+            r2.oblige(s, 'refused-with-TypeError/p%d' % pi, z3.BoolVal(isinstance(v, E.Raise) and v.exc.split(':')[0] == 'TypeError'))
+        res, res2 = r.result(), r2.result()
+        return {'obligations': res['obligations'] + res2['obligations'], 'funcs': res['funcs'], 'paths': res['paths'] + res2['paths']}
+    return Scenario(label, SV + '.__and__', gen, props=('C17', 'C01'))
+
+
+SCENARIOS += [sv_and(0, 0), sv_and(1, 2), sv_and(2, 1)]
